@@ -10,6 +10,8 @@ package main
 
 import (
 	"encoding/hex"
+	"reflect"
+	"unicode/utf8"
 	"fmt"
 	"sort"
 	"strconv"
@@ -29,7 +31,62 @@ var signEnc = app.MakeEncodingConfig()
 type signSeen struct {
 	ident string // type URLs + protobuf bytes of the messages
 	descr string
+	norm  string // the same after the two known normalisations (invalid UTF-8 -> U+FFFD, empty controller list -> absent)
 }
+
+// normIdent: identity of the messages after replacing bytes that are not UTF-8 in every string field by U+FFFD and an
+// empty DID controller list by an absent one (the two field-level collisions recorded as known finding K1)
+func normIdent(msgs []sdk.Msg) string {
+	var id []string
+	for _, msg := range msgs {
+		bz, err := signEnc.Codec.MarshalInterface(msg)
+		if err != nil {
+			return ""
+		}
+		var cp sdk.Msg
+		if err := signEnc.Codec.UnmarshalInterface(bz, &cp); err != nil {
+			return ""
+		}
+		sanitize(reflect.ValueOf(cp))
+		a, err := codectypes.NewAnyWithValue(cp)
+		if err != nil {
+			return ""
+		}
+		id = append(id, a.TypeUrl+"="+hex.EncodeToString(a.Value))
+	}
+	return strings.Join(id, ";")
+}
+
+func sanitize(v reflect.Value) {
+	switch v.Kind() {
+	case reflect.Ptr, reflect.Interface:
+		if !v.IsNil() {
+			if c, ok := v.Interface().(*didtypes.JSONStringOrStrings); ok && c != nil && len(*c) == 0 && v.CanSet() {
+				v.Set(reflect.Zero(v.Type()))
+				return
+			}
+			sanitize(v.Elem())
+		}
+	case reflect.Struct:
+		for i := 0; i < v.NumField(); i++ {
+			if v.Field(i).CanSet() || v.Field(i).Kind() == reflect.Ptr || v.Field(i).Kind() == reflect.Slice || v.Field(i).Kind() == reflect.Interface {
+				sanitize(v.Field(i))
+			}
+		}
+	case reflect.Slice:
+		if v.Type().Elem().Kind() == reflect.Uint8 {
+			return
+		}
+		for i := 0; i < v.Len(); i++ {
+			sanitize(v.Index(i))
+		}
+	case reflect.String:
+		if v.CanSet() {
+			v.SetString(coerceUTF8(v.String()))
+		}
+	}
+}
+
 
 func signMode(s string) signing.SignMode {
 	switch s {
@@ -105,13 +162,15 @@ func (x *Exec) endSign(f []string) (string, string) {
 			clause := "C14-collision-" + mode
 			if ks[0] != ks[1] {
 				clause += "-kinds"
+			} else if n := normIdent(x.cur.Top); n != "" && n == prev.norm {
+				clause += "-fields-utf8-or-empty-controller"
 			} else {
 				clause += "-fields"
 			}
 			x.FlagN(clause, fmt.Sprintf("two different transactions share their %s sign bytes: %s / %s (%d bytes)", mode, ks[0], ks[1], len(bz)), 400)
 			x.Stats["collision:"+clause+":"+ks[0]+"/"+ks[1]]++
 		} else if !ok {
-			x.signSeen[key] = signSeen{ident, strings.Join(kinds, "+")}
+			x.signSeen[key] = signSeen{ident, strings.Join(kinds, "+"), normIdent(x.cur.Top)}
 		}
 	}()
 	if authHex == "" {
@@ -185,6 +244,21 @@ func genSignCases(r *RNG, thorough bool) []string {
 		}
 		one(joinSp("did.Deactivate", toks(did), toks(vm), toks("s"), toks(A)))
 	}
+	{ // a controller list that is present but empty, next to the same document without one
+		did := didtypes.NewDID(g.keys[0].pub)
+		for _, withCtrl := range []bool{false, true} {
+			g.nDoc++
+			ref := fmt.Sprintf("c%d", g.nDoc)
+			add("DOC %s %s", ref, toks(did))
+			add("DCTX %s %s", ref, toks(didtypes.ContextDIDV1))
+			if withCtrl {
+				add("DCTRL %s", ref)
+			}
+			add("DVM %s %s %s %s %s", ref, toks(did+"#key1"), toks(didtypes.ES256K_2019), toks(did), toks(g.keys[0].b58))
+			add("DREL %s auth ref %s", ref, toks(did+"#key1"))
+			one(joinSp("did.Create", toks(did), ref, toks(did+"#key1"), toks("s"), toks(A)))
+		}
+	}
 	// PNFT
 	for i := 0; i < 12; i++ {
 		one(joinSp("pnft.CreateDenom", toks(pick(r, []string{"d1", "a/b", ""})), toks(txt()), toks(txt()), toks(txt()), toks(txt()), toks(txt()), toks(A), toks(txt())))
@@ -232,3 +306,18 @@ func genSignCases(r *RNG, thorough bool) []string {
 }
 
 var _ = sdk.AccAddress{}
+
+// coerceUTF8: what json.Marshal does to a string: every byte that does not start a valid encoding becomes U+FFFD
+func coerceUTF8(s string) string {
+	var sb strings.Builder
+	for i := 0; i < len(s); {
+		r, n := utf8.DecodeRuneInString(s[i:])
+		if r == utf8.RuneError && n == 1 {
+			sb.WriteString("\uFFFD")
+		} else {
+			sb.WriteString(s[i : i+n])
+		}
+		i += n
+	}
+	return sb.String()
+}
